@@ -355,6 +355,16 @@ NonOverlapConstraints::getCurrSubConstraintAlternatives(vpsc::Variables vs[])
 
     // Take the first in the list.
     ShapePairInfo& info = pairInfoList.front();
+    if (info.processed)
+    {
+        // Processed pairs are always kept behind the unprocessed ones, so
+        // every pair has been tried.  A pair whose alternatives all failed
+        // is given up: the set of accepted constraints only grows, so
+        // offering it again can't succeed (and would be repeated forever
+        // if no other pair is left to stop at).
+        _currSubConstraintIndex = pairInfoList.size();
+        return alternatives;
+    }
     if (pairInfoListSorted == false)
     {
         // Only need to compute if not sorted.
